@@ -1045,6 +1045,10 @@ class StarvationGuard(BaseException):
     pass
 
 
+class OSBoom(KeyError, ConnectionResetError):
+    """the producer's own failure happens to be an OSError (its upstream connection was reset): it is still the producer's exception"""
+
+
 class FalsyBoom(KeyError):
     """an exception whose instances are falsy (it carries a collection of sub-errors and has a length: here, none)"""
 
@@ -1092,7 +1096,7 @@ def asgi_scenario(ctx, cls_name, n_items, item_delay, send_delay, t_disc, ping, 
                 if item_delay:
                     await asyncio.sleep(item_delay)
                 if raise_at == i:
-                    raise (FalsyBoom if n_items % 2 else KeyError)("boom")  # (an exception object may be falsy - it is still the producer's exception)
+                    raise (KeyError, FalsyBoom, OSBoom)[(n_items + i) % 3]("boom")  # (an exception object may be falsy - it is still the producer's exception)
                 yielded.append(i)
                 yield make(i)
         finally:
